@@ -115,6 +115,24 @@ func c18Sequential(t *rapid.T) {
 		}
 		return false
 	}
+	// guarded runs a read that the model says cannot block (offset beyond the write position: invalid offset at once)
+	// under a watchdog, so that a backlog that waits there instead is reported and not waited for
+	guarded := func(what string, o uint64, f func() (int, error)) (n int, err error, hung bool) {
+		type ret struct {
+			n   int
+			err error
+		}
+		ch := make(chan ret, 1)
+		go func() { n, err := f(); ch <- ret{n, err} }()
+		select {
+		case r := <-ch:
+			return r.n, r.err, false
+		case <-time.After(3 * time.Second):
+			check(false, "invalid-offset-blocks", "%s at offset %d (beyond the write position) has not returned after 3 s; want invalid offset at once", what, o)
+			bl.Close() // frees the parked goroutine
+			return 0, nil, true
+		}
+	}
 	t.Repeat(map[string]func(*rapid.T){
 		"write": func(t *rapid.T) {
 			if stop {
@@ -130,6 +148,10 @@ func c18Sequential(t *rapid.T) {
 			b := make([]byte, k)
 			fillStream(b, wpos)
 			n, err := bl.Write(b)
+			// the caller owns its buffer again as soon as Write has returned (io.Writer): reuse it
+			for i := range b {
+				b[i] ^= 0xa5
+			}
 			ops++
 			if closed {
 				if k > 0 {
@@ -153,7 +175,17 @@ func c18Sequential(t *rapid.T) {
 				t.Skip("would block")
 			}
 			b := make([]byte, k)
-			n, err := bl.ReadAt(b, o)
+			var n int
+			var err error
+			if o > wpos && !closed {
+				var hung bool
+				if n, err, hung = guarded("ReadAt", o, func() (int, error) { return bl.ReadAt(b, o) }); hung {
+					stop = true
+					return
+				}
+			} else {
+				n, err = bl.ReadAt(b, o)
+			}
 			ops++
 			stop = readCheck("ReadAt", o, k, n, err, b)
 		},
@@ -183,7 +215,17 @@ func c18Sequential(t *rapid.T) {
 			}
 			k := rapid.SampledFrom([]int{1, 3, 4096, int(bk.cap) + 1}).Draw(t, "k")
 			b := make([]byte, k)
-			n, err := x.r.Read(b)
+			var n int
+			var err error
+			if x.seek > wpos && !closed {
+				var hung bool
+				if n, err, hung = guarded("Reader.Read", x.seek, func() (int, error) { return x.r.Read(b) }); hung {
+					stop = true
+					return
+				}
+			} else {
+				n, err = x.r.Read(b)
+			}
 			ops++
 			if stop = readCheck("Reader.Read", x.seek, k, n, err, b); stop {
 				return
@@ -297,6 +339,11 @@ func c18Waiters(t *rapid.T) {
 		fillStream(d, wpos)
 		bl.Write(d)
 	} else {
+		if rapid.IntRange(0, 2).Draw(t, "slowStoreClose") == 0 {
+			// closing the backing store takes a while (hook): the backlog must count as closed for the woken readers all the same
+			backlog.VerifSlowClose(bl, 20*time.Millisecond)
+			event = "close-slow-store"
+		}
 		if bk.fault != nil && rapid.Bool().Draw(t, "ownerClosedFile") {
 			// fault: the file is already closed, so the truncation inside Close fails; the backlog is closed all the same
 			bk.fault()
